@@ -32,9 +32,11 @@ def lit(ty, k):
 def derive_shapes(tier, seed):
     S = []
 
-    def shape(name, fields, vis="", remote=None, marks=None):
+    def shape(name, fields, vis="", remote=None, marks=None, attrs=None):
+        """attrs: {field: (lines before #[animate], lines after it)} - other attributes and doc comments on a field must not
+        change whether it counts as marked"""
         fs = [(n, t, (marks is not None and n in marks)) for (n, t) in fields]
-        S.append({"mod": name.lower(), "name": name, "fields": fs, "vis": vis, "remote": remote})
+        S.append({"mod": name.lower(), "name": name, "fields": fs, "vis": vis, "remote": remote, "attrs": attrs or {}})
 
     shape("D1", [("x", "f32")])
     shape("D2", [("x", "f32"), ("n", "u8")])
@@ -54,6 +56,13 @@ def derive_shapes(tier, seed):
                   "external_mod": True})
     shape("G13", [("pos", "glam::Vec2"), ("w", "f32")], marks={"pos"})
     shape("D14", [("only", "u32")], marks={"only"}, vis="pub")
+    # documented / attributed fields: the marker is recognised wherever it stands among a field's attributes
+    shape("A15", [("x", "f32"), ("y", "f32"), ("z_index", "f32")], marks={"x", "y"},
+          attrs={"x": (["/// Horizontal position."], []), "y": (["/// Vertical position.", "#[allow(dead_code)]"], []),
+                 "z_index": (["/// Stacking order; not animated."], [])})
+    shape("A16", [("a", "f32"), ("b", "u8"), ("c", "i32")], marks={"b"},
+          attrs={"a": (["/// Not animated.", "#[cfg(all())]"], []), "b": (["#[cfg(all())]"], ["/// The only animated field."]),
+                 "c": (["#[allow(unused)]"], [])})
     if tier == "thorough":
         rnd = random.Random(seed * 7919 + 17)
         for i in range(15, 15 + 136):
@@ -72,7 +81,13 @@ def derive_shapes(tier, seed):
                 rf = list(fields) + [("extra_s", "String"), ("extra_n", "u8")]
                 rnd.shuffle(rf)
                 remote = {"name": "R%d" % i, "fields": rf, "path": "R%d" % i}
-            shape(("P%d" if remote else "D%d") % i, fields, vis=vis, remote=remote, marks=marks)
+            attrs = {}
+            if marks and rnd.random() < 0.35:
+                for f, _ in fields:
+                    pre = rnd.choice([[], ["/// documented"], ["#[allow(dead_code)]"], ["/// documented", "#[cfg(all())]"]])
+                    post = rnd.choice([[], [], ["/// trailing doc"]]) if f in marks else []
+                    attrs[f] = (pre, post)
+            shape(("P%d" if remote else "D%d") % i, fields, vis=vis, remote=remote, marks=marks, attrs=attrs)
     return S
 
 
@@ -102,7 +117,14 @@ def derive_source(shapes):
             out.append("    #[derive(Animate, Clone, Debug, Default, PartialEq)]")
         out.append("    %s struct %s {" % (s["vis"], s["name"]))
         for (n, t, m) in s["fields"]:
-            out.append("        %s%s %s: %s," % ("#[animate] " if m else "", s["vis"] if s["vis"] else "", n, t))
+            pre, post = s.get("attrs", {}).get(n, ([], []))
+            for line in pre:
+                out.append("        " + line)
+            if m:
+                out.append("        #[animate]")
+            for line in post:
+                out.append("        " + line)
+            out.append("        %s %s: %s," % (s["vis"] if s["vis"] else "", n, t))
         out.append("    }")
         out.append("}")
     return "\n".join(out) + "\n"
